@@ -451,7 +451,71 @@ fn monitor_layer(logdir: &str, st: &mut Stats) -> serde_json::Value {
         "notification_checks": notif_judged, "notifications_emitted": notif_emitted, "event_queue_push_failures": push_failures})
 }
 
+// ---- loop layer: the REAL service_main::run() (monitor loop + heartbeat) on a paused tokio clock. The monitor iterates every 15 s of
+// virtual time (iteration k at t = 15k); a driver task on the same runtime wakes at t = 15k + 7, reads the status file the platform would
+// read for the current sequence number, and prepares the observation of iteration k+1. Everything the loop needs lives next to this
+// executable (HandlerEnvironment.json, current_seq_no.txt, ProxyAgent/...) - prepared by the python worker - and in /var/log, /usr/sbin.
+// C20_PLAN: comma separated steps: o = status file ok, m = missing, c = corrupt, v = version mismatch, and "+<step>" = a new sequence
+// number is enabled first (current_seq_no.txt bumped and <seq>.status written as "transitioning", as the enable handler does).
+fn loop_layer(out: &str) {
+    let plan: Vec<String> = std::env::var("C20_PLAN").expect("C20_PLAN").split(',').map(|x| x.to_string()).collect();
+    let exe_dir = std::env::current_exe().unwrap().parent().unwrap().to_path_buf();
+    let status_dir = exe_dir.join("status");
+    let agg = std::path::Path::new(proxy_agent_shared::proxy_agent_aggregate_status::PROXY_AGENT_AGGREGATE_STATUS_FOLDER)
+        .join(proxy_agent_shared::proxy_agent_aggregate_status::PROXY_AGENT_AGGREGATE_STATUS_FILE_NAME);
+    std::fs::create_dir_all(agg.parent().unwrap()).unwrap();
+    let version = std::env::var("C20_VERSION").unwrap_or_else(|_| "9.9.9-c20".to_string());
+    let set_obs = |step: &str| match step {
+        "o" => std::fs::write(&agg, status_doc(&version)).unwrap(),
+        "v" => std::fs::write(&agg, status_doc("1.0.0-other")).unwrap(),
+        "c" => std::fs::write(&agg, "{\"timestamp\": ").unwrap(),
+        _ => {
+            let _ = std::fs::remove_file(&agg);
+        }
+    };
+    let read_status = |seq: u32| -> String {
+        std::fs::read_to_string(status_dir.join(format!("{}.status", seq)))
+            .ok()
+            .and_then(|t| serde_json::from_str::<serde_json::Value>(&t).ok())
+            .and_then(|v| v[0]["status"]["status"].as_str().map(|x| x.to_string()))
+            .unwrap_or_else(|| "<no status file>".to_string())
+    };
+    let enable = |seq: u32| {
+        std::fs::write(exe_dir.join("current_seq_no.txt"), format!("{}", seq)).unwrap();
+        extlib::common::report_status_enable_command(status_dir.clone(), &format!("{}", seq), None);
+    };
+    extlib::logger::init_logger(exe_dir.join("log").to_string_lossy().to_string(), "c20loop.log");
+    let rt = tokio::runtime::Builder::new_current_thread().enable_all().start_paused(true).build().unwrap();
+    let mut rows: Vec<serde_json::Value> = Vec::new();
+    rt.block_on(async {
+        let mut seq = 0u32;
+        enable(seq);
+        let first = plan[0].trim_start_matches('+').to_string();
+        set_obs(&first);
+        extlib::service_main::run();
+        tokio::time::sleep(std::time::Duration::from_secs(7)).await;
+        for (k, step) in plan.iter().enumerate() {
+            let obs = step.trim_start_matches('+');
+            rows.push(json!({"iteration": k, "observation": obs, "sequence_number": seq, "status_file": read_status(seq)}));
+            if let Some(next) = plan.get(k + 1) {
+                if next.starts_with('+') {
+                    seq += 1;
+                    enable(seq);
+                }
+                set_obs(next.trim_start_matches('+'));
+            }
+            tokio::time::sleep(std::time::Duration::from_secs(15)).await;
+        }
+    });
+    std::fs::write(out, serde_json::to_string(&json!({"rows": rows})).unwrap()).unwrap();
+    std::process::exit(0); // the monitor loop never ends
+}
+
 fn main() {
+    if std::env::var("C20_MODE").as_deref() == Ok("loop") {
+        loop_layer(&std::env::var("C20_OUT").expect("C20_OUT"));
+        return;
+    }
     let maxlen: usize = std::env::var("C20_MAXLEN").ok().and_then(|x| x.parse().ok()).unwrap_or(16);
     let out = std::env::var("C20_OUT").expect("C20_OUT");
     let logdir = std::env::var("C20_LOGDIR").expect("C20_LOGDIR");
